@@ -15,7 +15,10 @@ add("C16", "checks/c16_floattext.c", ["default-plain", "dtostre-plain", "dtostre
     level_text="exploration by execution: ~1.4 M values x 17 texts (quick), ~55 M values (thorough) over all enumerable boundary classes plus random bit patterns; the universal claim over 2^64 doubles x 15 precisions is sampled, not enumerated",
     level_note="trusted in-process: glibc snprintf(\"%.*e\") correct rounding and strtod for building inputs; not trusted for the sampled records (exact integer re-check). "
                "dtostre oracle is the one-unit tolerance of DESIGN.md measured against the correctly rounded p-digit decimal (at exact ties against the nearer neighbour); a text one unit off that is "
-               "shorter than the rounded decimal is accepted (indistinguishable from a one-unit-low digit generator whose digits end in zeros); held means held on the values executed",
+               "shorter than the rounded decimal is accepted (indistinguishable from a one-unit-low digit generator whose digits end in zeros). Keys: C16:dtostre-ecvt-accuracy = precision 15 only, "
+               "2..6 units of the 15th digit (measured tail: 4 units 3.5e-7 of precision-15 texts, 5 units 5 in 3e8 extreme-exponent values, 6 never; precisions 1..14 never 2 units off in 7.6e8 texts); "
+               "C16:dtostre-trim-drops-digits = text denotes zero for a non-zero value, or is the rounded decimal cut short by more than the tolerance; anything else C16:dtostre-value-far/-syntax/-sign. "
+               "Layout (%g shape, exponent width) of SCPI_dtostre output is observed (counters dtostre.shape_*), not asserted: the statement only requires it to parse back. held means held on the values executed",
     assumptions=["glibc snprintf(\"%.*e\") rounds correctly (half-even on the exact value) - cross-checked on the recorded sample by exact integer arithmetic in py/c16_decimal.py",
                  "%g layout rule in checks/c16_floattext.c and py/c16_decimal.py (written twice from C11 7.21.6.1) is right",
                  "output buffers of 40..64 bytes (smaller buffers are C15's subject)",
